@@ -340,6 +340,21 @@ func (g *Gen) Target() *GConf {
 		if g.Kind == "asa" && g.Rng.Intn(4) == 0 {
 			c.Routes = append(c.Routes, fmt.Sprintf("ipv6 route %s 1000:%x::/64 1000::%x", c.Intfs[0], g.Rng.Intn(200), 1+g.Rng.Intn(200)))
 		}
+		if g.Rng.Intn(4) == 0 && !seen["10.0.0.0"] {
+			// Nested prefixes with one network address (see edit
+			// route-nested-prefix).
+			k := 50 + g.Rng.Intn(150)
+			seen["10.0.0.0"] = true
+			gw := fmt.Sprintf("10.9.%d.%d", g.Rng.Intn(3), 1+g.Rng.Intn(200))
+			if g.Kind == "asa" {
+				intf := c.Intfs[g.Rng.Intn(len(c.Intfs))]
+				c.Routes = append(c.Routes, fmt.Sprintf("route %s 10.%d.0.0 255.255.255.0 10.9.3.7", intf, k),
+					fmt.Sprintf("route %s 10.0.0.0 255.0.0.0 %s", intf, gw))
+			} else {
+				c.Routes = append(c.Routes, fmt.Sprintf("ip route 10.%d.0.0 255.255.255.0 10.9.3.7", k),
+					fmt.Sprintf("ip route 10.0.0.0 255.0.0.0 %s", gw))
+			}
+		}
 		if g.Kind == "ios" && !g.Small && g.Rng.Intn(3) == 0 {
 			// Routes of a VRF that Netspoc manages.
 			for i := 1 + g.Rng.Intn(3); i > 0; i-- {
@@ -414,7 +429,7 @@ func (g *Gen) Device(t *GConf, nedits int, unmanaged bool) (*GConf, []string) {
 			}
 			continue
 		}
-		switch g.Rng.Intn(24) {
+		switch g.Rng.Intn(25) {
 		case 0: // generated names on device
 			for _, a := range d.ACLs {
 				old := a.Name
@@ -597,6 +612,22 @@ func (g *Gen) Device(t *GConf, nedits int, unmanaged bool) (*GConf, []string) {
 					d.Binds = append(d.Binds, [3]string{n, "out", intf})
 					ops = append(ops, "binding-extra")
 				}
+			}
+		case 24: // device covers by N/16 what the target covers by N/24 and 10/8
+			var short, cover = -1, -1
+			for i, r := range d.Routes {
+				if strings.Contains(r, ".0.0 255.255.255.0 10.9.3.7") {
+					short = i
+				}
+				if strings.Contains(r, " 10.0.0.0 255.0.0.0 ") {
+					cover = i
+				}
+			}
+			if short >= 0 && cover >= 0 {
+				w := strings.Fields(d.Routes[cover])
+				d.Routes[short] = strings.Replace(d.Routes[short], "255.255.255.0 10.9.3.7", "255.255.0.0 "+w[len(w)-1], 1)
+				d.Routes = append(d.Routes[:cover], d.Routes[cover+1:]...)
+				ops = append(ops, "route-nested-prefix")
 			}
 		case 22, 23: // lines that split a block are new in the target, and old lines move
 			if len(d.ACLs) > 0 {
